@@ -312,6 +312,12 @@ func c05Client(e *Env, task *simrt.Task) {
 			continue
 		}
 		if c.Err != nil && attempt == "" {
+			switch cls := classifyErr(c.Err); cls {
+			case "token acquisition timeout", "closed", "ctx-cancelled", "ctx-deadline":
+				// the call never got to its commit: the writer slot is gone (later commits must work)
+				e.violate(violation("C05", "later-commit-blocked", classKey(c.Err), fmt.Sprintf("%s failed with %v (persist failed earlier in the run: %v): the engine no longer accepts writes", opStr(op), c.Err, failedBefore)))
+				return
+			}
 			// an ordinary failing call (no commit attempted)
 			if visible != acked {
 				e.violate(violation("C02", "failed-write-left-trace", op.K, fmt.Sprintf("%s failed with %v but changed the visible state", opStr(op), c.Err)))
